@@ -405,6 +405,8 @@ Fixpoint pp_run (ri : bool) (st : pp) (ops : list op) : res (pp * list active) :
   | o :: t => r <- pp_step ri st o ;; r' <- pp_run ri (fst r) t ;; Ok (fst r', snd r :: snd r')
   end.
 
+Definition pp_run_current := pp_run Gen_C09.PollPoller_remove_resets_index.
+
 (* ---- abstract specification: the interest map  Channel object -> subscribed conditions -------- *)
 Record sch := mkSch {
   s_fd : nat;
@@ -469,3 +471,133 @@ Fixpoint hist_ok (extra : spec -> op -> Prop) (sp : spec) (ops : list op) : Prop
 Definition spec_reports (sp : spec) (ready : nat -> N) (c : nat) (r : N) : Prop :=
   exists s, sp c = Some s /\ s_reg s = true /\ s_ev s <> 0%N /\
             r = N.land (ready (s_fd s)) (N.lor (s_ev s) EHN) /\ r <> 0%N.
+
+(* ---- Channel::handleEvent, Channel.cc:66-81: the tie_ guard ----------------------------------------
+   [tied] = tie() was called on the channel; [alive] = tie_.lock() yields a non-null guard (the owner
+   object still exists).  handleEventWithGuard runs iff the channel is untied or its owner is alive. *)
+Definition handle_runs (tied alive : bool) : bool := if tied then alive else true.
+Definition handle_event (tied alive : bool) (r : N) : list cb :=
+  if handle_runs tied alive then dispatch r else [].
+
+(* the callback codes used by the generated Gen_C09.Channel_handleEventWithGuard_calls *)
+Definition cb_of_code (k : N) : cb :=
+  match k with 0%N => CbClose | 1%N => CbError | 2%N => CbRead | _ => CbWrite end.
+
+(* ---- one iteration of EventLoop::loop() around a poller, EventLoop.cc:110-129 -----------------------
+   activeChannels_ is filled by poll() and then EVERY element of that snapshot gets handleEvent with
+   the revents stored at poll time, whatever earlier callbacks of the same batch did to its interest.
+   [h c k] = the Channel API calls the k-callback of channel c makes (on any channel);
+   [runs c] = handleEventWithGuard of c runs (untied, or tied and owner alive).
+   While dispatching, EventLoop::removeChannel asserts that the removed channel is the one being
+   handled or is not in activeChannels_ (EventLoop.cc:212-216) and ~Channel asserts !eventHandling_
+   (Channel.cc:39): violations are [Rejected] like the other documented preconditions. *)
+Definition handlers := nat -> cb -> list op.
+
+Definition in_snap (c : nat) (snap : list nat) : bool := existsb (Nat.eqb c) snap.
+
+Definition loop_guard (snap : list nat) (cur : nat) (o : op) : bool :=
+  match o with
+  | Remove c => Nat.eqb c cur || negb (in_snap c snap)
+  | Del c => negb (Nat.eqb c cur)
+  | Poll _ _ => false                 (* a callback does not re-enter poll() *)
+  | _ => true
+  end.
+
+Definition callbacks_g (runs : nat -> bool) (a : active) : list (nat * cb) :=
+  flat_map (fun cr => map (pair (fst cr)) (if runs (fst cr) then dispatch (snd cr) else [])) a.
+Definition batch_ops (h : handlers) (log : list (nat * cb)) : list op :=
+  flat_map (fun ck => h (fst ck) (snd ck)) log.
+
+Section LoopIter.
+Variable S : Type.
+Variable step : S -> op -> res (S * active).
+
+Fixpoint run_cb_ops (snap : list nat) (cur : nat) (st : S) (ops : list op) : res S :=
+  match ops with
+  | [] => Ok st
+  | o :: t => if loop_guard snap cur o then r <- step st o ;; run_cb_ops snap cur (fst r) t else Rejected
+  end.
+
+Fixpoint dispatch_cbs (h : handlers) (snap : list nat) (cur : nat) (st : S) (ks : list cb)
+  : res (S * list (nat * cb)) :=
+  match ks with
+  | [] => Ok (st, [])
+  | k :: t => st1 <- run_cb_ops snap cur st (h cur k) ;;
+              r <- dispatch_cbs h snap cur st1 t ;; Ok (fst r, (cur, k) :: snd r)
+  end.
+
+Fixpoint dispatch_batch (h : handlers) (runs : nat -> bool) (snap : list nat) (st : S) (act : active)
+  : res (S * list (nat * cb)) :=
+  match act with
+  | [] => Ok (st, [])
+  | cr :: t => r1 <- dispatch_cbs h snap (fst cr) st (if runs (fst cr) then dispatch (snd cr) else []) ;;
+               r2 <- dispatch_batch h runs snap (fst r1) t ;; Ok (fst r2, snd r1 ++ snd r2)
+  end.
+
+(* poll, then dispatch the snapshot: (state, activeChannels_, callbacks run in order) *)
+Definition loop_iter (h : handlers) (runs : nat -> bool) (st : S) (ready : nat -> N) (choice : list nat)
+  : res (S * active * list (nat * cb)) :=
+  r <- step st (Poll ready choice) ;;
+  d <- dispatch_batch h runs (map fst (snd r)) (fst r) (snd r) ;;
+  Ok (fst d, snd r, snd d).
+End LoopIter.
+
+Definition ep_loop_iter := loop_iter ep ep_step.
+Definition pp_loop_iter_current := loop_iter pp pp_step_current.
+
+(* the callbacks of one batch respect the preconditions (Channel API + the two loop asserts) *)
+Fixpoint cb_ops_ok (snap : list nat) (cur : nat) (sp : spec) (ops : list op) : Prop :=
+  match ops with
+  | [] => True
+  | o :: t => loop_guard snap cur o = true /\ sguard sp o /\ sclean sp o /\ cb_ops_ok snap cur (spec_step sp o) t
+  end.
+Fixpoint batch_ok (h : handlers) (snap : list nat) (sp : spec) (log : list (nat * cb)) : Prop :=
+  match log with
+  | [] => True
+  | ck :: t => cb_ops_ok snap (fst ck) sp (h (fst ck) (snd ck)) /\
+               batch_ok h snap (spec_run sp (h (fst ck) (snd ck))) t
+  end.
+
+(* ---- the loop's own descriptors: wake-up eventfd and timerfd (EventLoop.cc:234-252, TimerQueue.cc:57-66)
+   environment = eventfd counter, number of unread timer expirations, condition of every other descriptor *)
+Record kenv := mkKenv { k_wake : N; k_texp : N; k_rd : nat -> N }.
+
+(* eventfd(2): readable iff the counter is non-zero (always writable here); timerfd: readable iff an
+   expiration is unread *)
+Definition eventfd_ready (cnt : N) : N := if N.ltb 0 cnt then N.lor POLLIN POLLOUT else POLLOUT.
+Definition timerfd_ready (n : N) : N := if N.ltb 0 n then POLLIN else 0%N.
+Definition env_ready (wfd tfd : nat) (e : kenv) : nat -> N :=
+  fun f => if Nat.eqb f wfd then eventfd_ready (k_wake e)
+           else if Nat.eqb f tfd then timerfd_ready (k_texp e) else k_rd e f.
+
+(* read(2) on an eventfd / timerfd with a buffer of [size] bytes: EINVAL below 8 bytes (nothing
+   consumed); otherwise the counter is returned and reset (a semaphore eventfd is decremented) *)
+Definition fd_read (sem : bool) (size : Z) (cnt : N) : N :=
+  if Z.ltb size 8 then cnt else if sem then N.pred cnt else 0%N.
+Definition cb_read (reads sem : bool) (size : Z) (cnt : N) : N := if reads then fd_read sem size cnt else cnt.
+
+(* EventLoop::handleRead and TimerQueue::handleRead (readTimerfd), parameterised by what the source does *)
+Definition handleRead_env (reads sem : bool) (size : Z) (e : kenv) : kenv :=
+  mkKenv (cb_read reads sem size (k_wake e)) (k_texp e) (k_rd e).
+Definition timerRead_env (reads : bool) (size : Z) (e : kenv) : kenv :=
+  mkKenv (k_wake e) (cb_read reads false size (k_texp e)) (k_rd e).
+
+(* environment effect of each callback: the read callbacks of the wake-up channel [wc] and of the
+   timer channel [tc] are the two functions above, everything else is the user's *)
+Definition loop_effects (wake_rd timer_rd : kenv -> kenv) (wc tc : nat) (user : nat -> cb -> kenv -> kenv)
+  : nat -> cb -> kenv -> kenv :=
+  fun c k => if Nat.eqb c wc then (match k with CbRead => wake_rd | _ => fun e => e end)
+             else if Nat.eqb c tc then (match k with CbRead => timer_rd | _ => fun e => e end)
+             else user c k.
+Definition apply_effects (eff : nat -> cb -> kenv -> kenv) (log : list (nat * cb)) (e : kenv) : kenv :=
+  fold_left (fun e ck => eff (fst ck) (snd ck) e) log e.
+
+Section LoopEnv.
+Variable S : Type.
+Variable step : S -> op -> res (S * active).
+(* one iteration with the environment: poll sees env_ready; the callbacks' effects are applied in order *)
+Definition loop_iter_env (h : handlers) (runs : nat -> bool) (eff : nat -> cb -> kenv -> kenv)
+  (wfd tfd : nat) (st : S) (e : kenv) (choice : list nat) : res (S * active * list (nat * cb) * kenv) :=
+  r <- loop_iter S step h runs st (env_ready wfd tfd e) choice ;;
+  Ok (r, apply_effects eff (snd r) e).
+End LoopEnv.
